@@ -160,10 +160,13 @@ def _value_to_cst(value: Any) -> cst.BaseExpression:  # noqa: C901
         return cst.Integer(str(value))
     if isinstance(value, float):
         return _make_float_literal(value)
+    # Members of enums that mix in str/bytes (e.g. enum.StrEnum) are rendered
+    # as their value, like the members of an IntEnum above. Their own repr,
+    # e.g. <Tag.A: 'a'>, is not a literal, so ask the base type for it.
     if isinstance(value, str):
-        return cst.SimpleString(repr(value))
+        return cst.SimpleString(str.__repr__(value))  # noqa: PLC2801
     if isinstance(value, bytes):
-        return cst.SimpleString(repr(value))
+        return cst.SimpleString(bytes.__repr__(value))  # noqa: PLC2801
     if isinstance(value, complex):
         # complex(<real>, <imag>); the repr, e.g. (1+2j), is not a string literal
         return cst.Call(
